@@ -1,7 +1,7 @@
 /* C32 — builtin_SHA1 (real sha1.c: SHA1Init, SHA1Update, SHA1Transform, SHA1Final) equals the
  * FIPS 180-4 SHA-1 reference written in contracts/c31_sha1_harness.h on messages of enumerated
  * lengths whose content is a fixed pattern with ONE ARBITRARY BYTE in the middle:
- *   quick     lengths 0 and 60 (= 24-byte key ‖
+ *   quick     lengths 0, 55, 56 (padding boundaries) and 60 (= 24-byte key ‖
  *             36-byte GUID: what ws_gen_accept_key hashes for an RFC 6455 key)
  *   thorough  every multiple of 4 up to 64, 53..67, 119 (the largest two-block message)
  * This is a BOUNDED check and deliberately labelled so: with fully symbolic content the
@@ -13,6 +13,6 @@
 #ifdef VF_SHA_FULL
 #define VF_SHA_LENGTHS(L) (((L) <= 64 && (L) % 4 == 0) || ((L) >= 53 && (L) <= 67) || (L) == 1 || (L) == 119)
 #else
-#define VF_SHA_LENGTHS(L) ((L) == 0 || (L) == 60)
+#define VF_SHA_LENGTHS(L) ((L) == 0 || (L) == 55 || (L) == 56 || (L) == 60)   /* 55/56: the two padding boundaries (last length that fits one block, first that needs two) */
 #endif
 #include "c31_sha1_harness.h"
